@@ -42,3 +42,27 @@ def sweep(binary, fen, pre):
             acc.append([s, x])
     return {"ev": "pm", "fen": ["startpos"] if fen == "startpos" else list(fen), "pre": list(pre), "n": len(UNIVERSE),
             "acc": acc, "rej": list(rej.values())}
+
+
+def fen_sweep(binary, strings):
+    """`position fen <s>`, `show`, `isready` for each string on the real binary -> ufen events (C17 over UCI).
+    Strings containing a line break cannot be sent as one command and are skipped."""
+    strings = [x for x in strings if "\n" not in x and "\r" not in x]
+    script = "".join("position fen %s\nshow\nisready\n" % x for x in strings) + "quit\n"
+    try:
+        out, err, rc = uci.batch(binary, script, timeout=600)
+    except Exception as ex:           # timeout: the engine wedged
+        return [{"ev": "ufen", "fen": list(strings[0]) if strings else [], "acc": False, "fl": [], "died": True}]
+    chunks = out.split("readyok\n")
+    evs = []
+    for i, x in enumerate(strings):
+        if i >= len(chunks) - 1:
+            evs.append({"ev": "ufen", "fen": list(x), "acc": False, "fl": [], "died": True})   # the process died here
+            break
+        lines = chunks[i].split("\n")
+        fl = []
+        for l in lines:
+            if l.startswith("Fen: "):
+                fl = l[5:].split(" ")[:4]
+        evs.append({"ev": "ufen", "fen": list(x), "acc": bool(fl), "fl": fl, "died": False})
+    return evs
